@@ -907,6 +907,199 @@ fn port_states(rt: &Rt, ev: &mut Evidence) {
     }
 }
 
+fn fixture(name: &str) -> String {
+    verif_root().join("fixtures").join("pki").join(name).display().to_string()
+}
+
+fn run_peer(args: &[String]) -> serde_json::Value {
+    let out = std::process::Command::new("python3")
+        .arg(verif_root().join("peers").join("tls_peer.py"))
+        .args(args)
+        .stdin(std::process::Stdio::null())
+        .output();
+    match out {
+        Err(e) => json!({"spawn_error": e.to_string()}),
+        Ok(o) => {
+            let text = String::from_utf8_lossy(&o.stdout);
+            let last = text.lines().rev().find(|l| l.trim_start().starts_with('{')).unwrap_or("{}");
+            serde_json::from_str(last).unwrap_or(json!({"parse_error": text.to_string()}))
+        }
+    }
+}
+
+/// configuration passes through unchanged: TLS settings (minimum version, certificate mode),
+/// retry strategy delays, serial port settings
+fn configuration(rt: &Rt, ev: &mut Evidence) {
+    // --- TLS server through the C ABI: {min 1.2, 1.3} x {authority, self-signed} vs a python peer
+    for (min, mode) in [(0i32, 0i32), (1, 0), (0, 1), (1, 1)] {
+        let (peer_cert, local, key) = if mode == 0 {
+            (fixture("ca1.cert.pem"), fixture("server_valid.cert.pem"), fixture("server_valid.key.pem"))
+        } else {
+            (fixture("ss_client.cert.pem"), fixture("ss_server.cert.pem"), fixture("ss_server.key.pem"))
+        };
+        let (a, b, c, d) = (cstr(&peer_cert), cstr(&local), cstr(&key), cstr(""));
+        let tls = ffi::TlsServerConfig { peer_cert_path: a.as_ptr(), local_cert_path: b.as_ptr(), private_key_path: c.as_ptr(), password: d.as_ptr(), min_tls_version: min, certificate_mode: mode };
+        let server = unsafe {
+            let map = ffi::rodbus_device_map_create();
+            let (_wh, handler) = write_handler(false);
+            let (_c, cb) = db_callback_with(|db| {
+                ffi::rodbus_database_add_holding_register(db, 0, 0x1234);
+            });
+            ffi::rodbus_device_map_add_endpoint(map, 1, handler, cb);
+            let filter = ffi::rodbus_address_filter_any();
+            let port = next_port();
+            let ip = cstr("127.0.0.1");
+            let mut server = std::ptr::null_mut();
+            let rc = ffi::rodbus_server_create_tls(rt.0, ip.as_ptr(), port, filter, 4, map, tls, decode(0, 0, 0), &mut server);
+            ffi::rodbus_address_filter_destroy(filter);
+            ffi::rodbus_device_map_destroy(map);
+            if rc != 0 {
+                ev.inconclusive(format!("rodbus_server_create_tls(min={min}, mode={mode}) returned {rc}"));
+                continue;
+            }
+            (server, port)
+        };
+        let (ca, cert, ckey, name) = if mode == 0 {
+            (fixture("ca1.cert.pem"), fixture("client_operator.cert.pem"), fixture("client_operator.key.pem"), "test.server")
+        } else {
+            (fixture("ss_server.cert.pem"), fixture("ss_client.cert.pem"), fixture("ss_client.key.pem"), "ss.server")
+        };
+        for (lo, hi, offer) in [("1.2", "1.2", 12), ("1.3", "1.3", 13)] {
+            let res = run_peer(&[
+                "client".into(), "--port".into(), server.1.to_string(), "--ca".into(), ca.clone(), "--cert".into(), cert.clone(), "--key".into(), ckey.clone(),
+                "--min".into(), lo.into(), "--max".into(), hi.into(), "--servername".into(), name.into(), "--send".into(), "424200000006010300000001".into(), "--wait".into(), "2".into(),
+            ]);
+            let served = res["reply_hex"].as_str().map(|h| h.starts_with("4242")).unwrap_or(false);
+            let want = !(min == 1 && offer == 12);
+            ev.eval();
+            ev.count("tls_configuration_cells", 1);
+            ev.class(format!("config|tls_server|min{}|mode{}|peer_tls1.{}|{}", if min == 0 { "1.2" } else { "1.3" }, mode, offer - 10, if served { "served" } else { "refused" }));
+            if served != want {
+                ev.violation(
+                    format!("config:tls_server:min_version={min}:certificate_mode={mode}:peer_tls1.{}:{}", offer - 10, if served { "served" } else { "refused" }),
+                    format!("C-ABI TLS server with min_tls_version={} certificate_mode={}: a valid peer offering only TLS1.{} was {} ({res})", if min == 0 { "V12" } else { "V13" }, if mode == 0 { "AuthorityBased" } else { "SelfSigned" }, offer - 10, if served { "served" } else { "refused" }),
+                    json!({"min": min, "mode": mode, "offer": offer, "peer": res}),
+                );
+            }
+        }
+        // the other mode's credentials must not work (mode really is what was asked for)
+        let (oca, ocert, okey, oname) = if mode == 1 {
+            (fixture("ca1.cert.pem"), fixture("client_operator.cert.pem"), fixture("client_operator.key.pem"), "test.server")
+        } else {
+            (fixture("ss_server.cert.pem"), fixture("ss_client.cert.pem"), fixture("ss_client.key.pem"), "ss.server")
+        };
+        let res = run_peer(&["client".into(), "--port".into(), server.1.to_string(), "--ca".into(), oca, "--cert".into(), ocert, "--key".into(), okey, "--servername".into(), oname.into(), "--send".into(), "424200000006010300000001".into(), "--wait".into(), "1".into()]);
+        if res["reply_hex"].as_str().map(|h| h.starts_with("4242")).unwrap_or(false) {
+            ev.violation(format!("config:tls_server:certificate_mode={mode}:other_mode_credentials_served"), "a peer with the other certificate mode's credentials was served".to_string(), json!({"peer": res}));
+        }
+        unsafe { ffi::rodbus_server_destroy(server.0) };
+    }
+
+    // --- retry strategy delays: first wait after a refused connect must be >= min_delay
+    for min_ms in [120u64, 300] {
+        let (states, listener) = client_listener();
+        let mut ch = std::ptr::null_mut();
+        let host = cstr("127.0.0.1");
+        let port = next_port();
+        let rc = unsafe { ffi::rodbus_client_channel_create_tcp(rt.0, host.as_ptr(), port, 4, retry(min_ms, min_ms * 4), decode(0, 0, 0), listener, &mut ch) };
+        if rc != 0 {
+            continue;
+        }
+        unsafe { ffi::rodbus_client_channel_enable(ch) };
+        std::thread::sleep(Duration::from_millis(min_ms * 4 + 400));
+        unsafe { ffi::rodbus_client_channel_destroy(ch) };
+        let seq = states.seq.lock().unwrap().clone();
+        let at = states.at.lock().unwrap().clone();
+        ev.eval();
+        ev.class(format!("config|retry_min_delay_{min_ms}ms"));
+        // disabled, connecting, wait, connecting, wait ...: gaps between wait_k and the next connecting
+        let mut waits = vec![];
+        for i in 0..seq.len().saturating_sub(1) {
+            if seq[i] == 3 && seq[i + 1] == 1 {
+                waits.push(at[i + 1].duration_since(at[i]));
+            }
+        }
+        ev.count("retry_waits_measured", waits.len() as u64);
+        if let Some(w) = waits.first() {
+            if *w + Duration::from_millis(2) < Duration::from_millis(min_ms) || *w > Duration::from_millis(min_ms + 250) {
+                ev.violation(format!("config:retry_strategy:min_delay={min_ms}ms"), format!("retry strategy min_delay {min_ms} ms: first wait lasted {w:?}"), json!({"waits": waits.iter().map(|d| d.as_millis() as u64).collect::<Vec<_>>()}));
+            }
+        }
+        if let Some(w) = waits.get(1) {
+            if *w + Duration::from_millis(2) < Duration::from_millis(2 * min_ms) {
+                ev.violation(format!("config:retry_strategy:second_delay:min={min_ms}ms"), format!("second wait lasted {w:?}, expected about {} ms", 2 * min_ms), json!({}));
+            }
+        }
+    }
+
+    // --- serial settings: open a pty through the C ABI and read the line settings back
+    unsafe {
+        let m = libc::posix_openpt(libc::O_RDWR | libc::O_NOCTTY);
+        if m >= 0 && libc::grantpt(m) == 0 && libc::unlockpt(m) == 0 {
+            let mut buf = [0 as libc::c_char; 128];
+            libc::ptsname_r(m, buf.as_mut_ptr(), buf.len());
+            let path = std::ffi::CStr::from_ptr(buf.as_ptr()).to_owned();
+            // (baud, data bits enum, flow enum, parity enum, stop bits enum)
+            for (baud, data, flow, parity, stop) in [(19200u32, 2i32, 0i32, 2i32, 1i32), (9600, 3, 1, 1, 0), (115200, 3, 0, 0, 0), (4800, 1, 2, 0, 1)] {
+                let (_st, listener) = port_listener();
+                let mut ch = std::ptr::null_mut();
+                let settings = ffi::SerialPortSettings { baud_rate: baud, data_bits: data, flow_control: flow, parity, stop_bits: stop };
+                let rc = ffi::rodbus_client_channel_create_rtu(rt.0, path.as_ptr(), settings, 4, retry(50, 100), decode(0, 0, 0), listener, &mut ch);
+                if rc != 0 {
+                    continue;
+                }
+                ffi::rodbus_client_channel_enable(ch);
+                std::thread::sleep(Duration::from_millis(120));
+                let fd = libc::open(path.as_ptr(), libc::O_RDWR | libc::O_NOCTTY | libc::O_NONBLOCK);
+                let mut t: libc::termios = std::mem::zeroed();
+                let ok = fd >= 0 && libc::tcgetattr(fd, &mut t) == 0;
+                if ok {
+                    let csize = t.c_cflag & libc::CSIZE;
+                    let got_data = match csize {
+                        x if x == libc::CS5 => 0,
+                        x if x == libc::CS6 => 1,
+                        x if x == libc::CS7 => 2,
+                        _ => 3,
+                    };
+                    let got_parity = if t.c_cflag & libc::PARENB == 0 { 0 } else if t.c_cflag & libc::PARODD != 0 { 1 } else { 2 };
+                    let got_stop = if t.c_cflag & libc::CSTOPB != 0 { 1 } else { 0 };
+                    let got_flow = if t.c_cflag & libc::CRTSCTS != 0 { 2 } else if t.c_iflag & (libc::IXON | libc::IXOFF) != 0 { 1 } else { 0 };
+                    let got_baud = match libc::cfgetospeed(&t) {
+                        libc::B4800 => 4800,
+                        libc::B9600 => 9600,
+                        libc::B19200 => 19200,
+                        libc::B115200 => 115200,
+                        _ => 0,
+                    };
+                    ev.eval();
+                    ev.count("serial_settings_checked", 1);
+                    ev.class(format!("config|serial|{baud}|d{data}|f{flow}|p{parity}|s{stop}"));
+                    // a Linux pty forces 8 data bits / no parity and does not keep the baud rate, so
+                    // only flow control and stop bits can be read back here
+                    let _ = (got_baud, got_data, got_parity);
+                    let want = (flow, stop);
+                    let got = (got_flow, got_stop);
+                    if want != got {
+                        ev.violation(
+                            format!("config:serial_settings:flow_stop:want={want:?}:got={got:?}").replace(' ', ""),
+                            format!("serial settings (flow_control, stop_bits) given {want:?} but the port was configured {got:?}"),
+                            json!({"baud": baud, "data_bits": data, "parity": parity}),
+                        );
+                    }
+                }
+                if fd >= 0 {
+                    libc::close(fd);
+                }
+                ffi::rodbus_client_channel_destroy(ch);
+                std::thread::sleep(Duration::from_millis(30));
+            }
+            libc::close(m);
+        } else {
+            ev.count("pty_unavailable", 1);
+        }
+    }
+}
+
 pub fn run(args: &Args) -> i32 {
     let started = Instant::now();
     let log = install_logger();
@@ -921,6 +1114,7 @@ pub fn run(args: &Args) -> i32 {
         None => ev.inconclusive("could not install the C-ABI logger"),
     }
     port_states(&rt, &mut ev);
+    configuration(&rt, &mut ev);
     ev.sample(json!({"client_scenario": "rodbus_client_channel_read_holding_registers(unit, range, timeout) against a scripted peer answering [genuine, exception 0x01..0xFF, bad response, silence, ...]; the same list through rodbus::client::Channel", "server_scenario": "WriteHandler callbacks returning {success | exception enum | Unknown+raw code} for FC05/06/15/16 observed by a raw TCP client"}));
     unsafe { ffi::rodbus_runtime_destroy(rt.0) };
     if args.tier == Tier::Thorough && !args.extra.contains_key("no-legs") {
@@ -944,6 +1138,7 @@ pub fn run(args: &Args) -> i32 {
             ("distinct_exception_codes".into(), 256),
             ("queue_full_rejections".into(), 8),
             ("shutdown_completions".into(), 8),
+            ("tls_configuration_cells".into(), 8),
         ],
         min_classes: 120,
     };
